@@ -31,7 +31,7 @@ def _load_baseline():
 
 
 _BASELINE = _load_baseline()
-_SAFE_STDLIB = {'itertools', 'math', 'operator', 'functools', 'string', 'fractions'}
+_SAFE_STDLIB = {'itertools', 'math', 'operator', 'functools', 'string', 'fractions', 'bisect'}
 
 
 class Harness:
